@@ -326,7 +326,11 @@ def boundary_docs(base, s):
             for pat in sc.get('patternProperties', {}):
                 for k in list(sub):
                     if re.search(pat, k):
-                        for k2 in (k + '\n', k.lower(), k + 'x', k[:-1], ' ' + k):
+                        rk = random.Random(len(k))
+                        alike = [sample_matching(rk, pat) for _ in range(3)]        # other strings the pattern accepts
+                        alike += [c * len(k) for c in ('-', '0', 'F', '_', 'Z') if re.search(pat, c * len(k))]
+                        alike += [k[:i] + '-' + k[i + 1:] for i in (0, len(k) // 2) if re.search(pat, k[:i] + '-' + k[i + 1:])]
+                        for k2 in [k + '\n', k.lower(), k.upper(), k + 'x', k[:-1], ' ' + k] + alike:
                             d = dict(sub)
                             d[k2] = d.pop(k)
                             out.append(replace_at(base, path, d))
